@@ -406,7 +406,7 @@ class Gen(object):
         ps = lambda **kw: [{'n': a, 'e': e} for a, e in kw.items()]
         intv = lambda: self.expr('int', self.maxdepth - 1)
         kinds = ['fcall_stmt', 'fcall_value', 'mix', 'classop', 'classop_value', 'bridge', 'bridge_assign', 'enum', 'const',
-                 'bridge_value']
+                 'bridge_value', 'ref_read']
         if self.home != 'derived':
             kinds += ['param', 'param_if']        # a derived attribute has no parameters
         la = self.live_insts('A')
@@ -467,6 +467,19 @@ class Gen(object):
             return Assign(Field({'t': 'self'}, 'N'), intv())
         if k == 'self_read':
             return assign_new('int', 'n', Field({'t': 'self'}, 'N'))
+        if k == 'ref_read':
+            # a referential attribute read: typed as the attribute it refers to
+            cands = [(n, t[5:]) for sc in self.scopes for n, t in sc.items() if t in ('inst:B', 'inst:L', 'inst:M') and n in set().union(*self.ok)]
+            if not cands:
+                b = self.fresh('inst:B', 'b')
+                self.ok[-1].add(b)
+                pre = [{'t': 'create', 'v': b, 'k': 'B'}]
+                cands = [(b, 'B')]
+            else:
+                pre = []
+            n, c = r.choice(cands)
+            attr = r.choice({'B': ['A_Id'], 'L': ['A_Id', 'B_Id'], 'M': ['One_Id', 'Other_Id']}[c])
+            return pre + [assign_new('id', 'k', Field(V(n), attr))]
         if k == 'self_relate':
             # self named as an instance of a relate / unrelate statement
             bs = [n for sc in self.scopes for n, t in sc.items() if t == 'inst:B']
